@@ -447,7 +447,11 @@ func (v *VC) doCall(c *ssa.CallCommon, g string, heap *Heap, pos token.Pos) []st
 			v.note("assumed contract of %s (body not verified in this run)", key)
 		}
 		if ct.Pure {
-			res := v.ufApp("uf_"+sanitize(key), sig, "", args)
+			rs := ""
+			if callee.Signature.Recv() != nil {
+				rs = v.sortOf(callee.Signature.Recv().Type())
+			}
+			res := v.ufApp("uf_"+sanitize(key), callee.Signature, rs, args)
 			v.assumeResultFacts(sig, res, g)
 			v.assumeEnsures(callee, ct, args, res, g, heap)
 			return res
@@ -517,6 +521,26 @@ func (v *VC) callEnv(callee *ssa.Function, sig *types.Signature, ct *Contract, a
 		}
 	}
 	return env
+}
+
+// framedHavoc applies the assumed frame clauses of a contract (modifies younger/object/kinds).
+func (v *VC) framedHavoc(name string, ct *Contract, pre *SpecEnv, heap *Heap) {
+	rootOfExpr := func(src string) string {
+		if src == "" {
+			return ""
+		}
+		t := v.ev(mustParse(src), pre)
+		return fmt.Sprintf("(root %s)", ptrOf(v.sortTV(t), t.T))
+	}
+	var kinds map[string]bool
+	if len(ct.ModKinds) > 0 {
+		kinds = map[string]bool{}
+		for _, k := range ct.ModKinds {
+			kinds[k] = true
+		}
+	}
+	v.note("assumed frame of %s: modifies younger(%s) object(%s) kinds%v only", name, ct.ModYounger, ct.ModObject, ct.ModKinds)
+	v.havocFramed(heap, false, rootOfExpr(ct.ModYounger), rootOfExpr(ct.ModObject), kinds)
 }
 
 func mustParse(src string) SExpr {
@@ -592,10 +616,8 @@ func (v *VC) modularCall(callee *ssa.Function, ct *Contract, args []string, bind
 		v.oblige("call("+callee.Name()+").requires", r.Label, g, v.evalSpec(r, pre), pos, r.Src)
 		v.assume(g, v.evalSpec(r, pre))
 	}
-	if ct.ModYounger != "" {
-		yt := v.ev(mustParse(ct.ModYounger), pre)
-		v.note("assumed frame of %s: writes only to the object of %s and to younger objects", shortKey(fnKey(callee)), ct.ModYounger)
-		v.havocYounger(heap, false, fmt.Sprintf("(root %s)", ptrOf(v.sortTV(yt), yt.T)))
+	if ct.ModYounger != "" || ct.ModObject != "" || len(ct.ModKinds) > 0 {
+		v.framedHavoc(shortKey(fnKey(callee)), ct, pre, heap)
 	} else if !ct.ModNothing {
 		v.havocAll(heap, false)
 	} else {
@@ -633,6 +655,14 @@ func (v *VC) applySets(ct *Contract, post *SpecEnv, heap *Heap) {
 	// all updates read the ghost state as it was before any of them
 	snap := *post
 	snap.heap = heap.clone()
+	if post.old != nil && post.old.heap != nil {
+		// ghost variables are read in the pre-call state (they may just have been havoced)
+		for g := range v.P.db.Ghosts {
+			key := "ghost:" + g
+			v.registerKey(key, "RAW:"+v.P.db.Ghosts[g])
+			snap.heap.m[key] = v.heapGet(post.old.heap, key, "RAW:"+v.P.db.Ghosts[g])
+		}
+	}
 	var keys, terms []string
 	for _, gs := range ct.Sets {
 		srt, ok := v.P.db.Ghosts[gs.Var]
@@ -674,7 +704,9 @@ func (v *VC) modularSig(name string, sig *types.Signature, ct *Contract, args []
 		v.oblige("call("+name+").requires", r.Label, g, v.evalSpec(r, pre), pos, r.Src)
 		v.assume(g, v.evalSpec(r, pre))
 	}
-	if !ct.ModNothing {
+	if ct.ModYounger != "" || ct.ModObject != "" || len(ct.ModKinds) > 0 {
+		v.framedHavoc(name, ct, pre, heap)
+	} else if !ct.ModNothing {
 		v.havocAll(heap, false)
 	} else {
 		v.advanceClock(heap) // the callee may allocate
@@ -696,6 +728,7 @@ func (v *VC) assumeEnsuresSig(name string, sig *types.Signature, ct *Contract, a
 	}
 	env := &SpecEnv{vars: map[string]TV{}, addr: map[string]ssa.Value{}, heap: heap, bound: map[string]TV{}, before: map[string]TV{}, fn: v.fn}
 	env.vars["recv"] = TV{T: args[0], Typ: recvType}
+	env.vars["arg0"] = env.vars["recv"]
 	for k := 0; k < sig.Params().Len(); k++ {
 		n := sig.Params().At(k).Name()
 		if n == "" || n == "_" {
@@ -705,6 +738,7 @@ func (v *VC) assumeEnsuresSig(name string, sig *types.Signature, ct *Contract, a
 			n = ct.Params[k]
 		}
 		env.vars[n] = TV{T: args[k+1], Typ: sig.Params().At(k).Type()}
+		env.vars[fmt.Sprintf("arg%d", k+1)] = env.vars[n]
 	}
 	env.old = env
 	bindResults(env, sig, res)
